@@ -178,6 +178,14 @@ class Analyzer:
         kw_roots = {k.arg: self.roots(k.value) for k in c.keywords}
         if "out" in kw_roots:
             self.record(kw_roots["out"], c, "out= argument")
+        # scipy / numpy `overwrite_*` switches allow the callee to destroy the corresponding operand
+        for k in c.keywords:
+            if k.arg and k.arg.startswith("overwrite_") and not (isinstance(k.value, ast.Constant) and k.value.value in (False, None, 0)):
+                pos = {"overwrite_a": 0, "overwrite_b": 1, "overwrite_ab": 0, "overwrite_x": 0, "overwrite_input": 0, "overwrite_data": 0,
+                       "overwrite_c": 0, "overwrite_y": 1}.get(k.arg, 0)
+                tgt_arg = c.args[pos] if pos < len(c.args) else None
+                if tgt_arg is not None:
+                    self.record(self.roots(tgt_arg), c, "%s=%s lets `%s` overwrite its operand `%s`" % (k.arg, unparse(k.value), unparse(c.func), unparse(tgt_arg)))
         # ---- method calls on values
         if isinstance(f, ast.Attribute):
             base = f.value
